@@ -15,22 +15,27 @@ NoBound == 1000000
 SubDef == << [n |-> "si", kind |-> "i", lo |-> 0,      hi |-> 50, def |-> 7],
              [n |-> "sf", kind |-> "f", lo |-> 0 - 16, hi |-> 16, def |-> 6],
              [n |-> "st", kind |-> "T", lo |-> 0,      hi |-> 0,  def |-> FALSE] >>
-SubDefault == [null |-> FALSE, si |-> 7, sf |-> 6, st |-> FALSE]
+SubDefault == [null |-> FALSE, si |-> 7, sf |-> 6, st |-> FALSE, sa |-> <<4, 4>>]
 NullSub == [null |-> TRUE]
-Default == [pc |-> 64, pi |-> 5, pn |-> 0, pf |-> 2, pg |-> 4, pt |-> FALSE, po |-> 1, ps |-> <<97, 98, 99>>, preset |-> 0, dep |-> 10,
+Default == [pc |-> 64, pi |-> 5, pn |-> 0, pf |-> 2, pg |-> 4, pt |-> FALSE, po |-> 1, ps |-> <<97, 98, 99>>, preset |-> 0, dep |-> 10, mode |-> 0, dep2 |-> 1, chain |-> 0, tg |-> FALSE, dep3 |-> 5,
             ai |-> <<3, 3, 3>>, af |-> <<1, 1, 1>>, at |-> <<FALSE, FALSE>>, sub_on |-> TRUE, sub |-> SubDefault,
             subs |-> <<SubDefault, SubDefault>>, palloc |-> FALSE, psub |-> NullSub]
 PresetDefault(p) == CASE p = 0 -> 10 [] p = 1 -> 20 [] OTHER -> 30
+PresetDefault2(p) == CASE p = 0 -> 1 [] p = 1 -> 2 [] OTHER -> 3
+PresetDefault3(p) == CASE p = 0 -> 5 [] p = 1 -> 6 [] OTHER -> 7
 OptionNames == << <<122, 101, 114, 111>>, <<111, 110, 101>>, <<116, 119, 111>> >>          \* zero one two
 \* a concrete parameter: where it lives, its kind and declared bounds (NoBound = absent)
-Scalar(f, kind, lo, hi) == [where |-> "top", f |-> f, i |-> 0, kind |-> kind, lo |-> lo, hi |-> hi]
-Elem(f, i, kind, lo, hi) == [where |-> "arr", f |-> f, i |-> i, kind |-> kind, lo |-> lo, hi |-> hi]
-InSub(w, i, d) == [where |-> w, f |-> d.n, i |-> i, kind |-> d.kind, lo |-> d.lo, hi |-> d.hi]
+\* i: index of the enumerated sub-tree (subs#2), j: element of an array inside a sub-tree (0: not an array element)
+Scalar(f, kind, lo, hi) == [where |-> "top", f |-> f, i |-> 0, j |-> 0, kind |-> kind, lo |-> lo, hi |-> hi]
+Elem(f, i, kind, lo, hi) == [where |-> "arr", f |-> f, i |-> i, j |-> 0, kind |-> kind, lo |-> lo, hi |-> hi]
+InSub(w, i, d) == [where |-> w, f |-> d.n, i |-> i, j |-> 0, kind |-> d.kind, lo |-> d.lo, hi |-> d.hi]
+SubElem(w, i, j) == [where |-> w, f |-> "sa", i |-> i, j |-> j, kind |-> "I", lo |-> 0, hi |-> 100]
 Param(addr) ==
   CASE addr = "/pc" -> Scalar("pc", "c", 0, 127) [] addr = "/pi" -> Scalar("pi", "i", 0 - 10, 1000) [] addr = "/pn" -> Scalar("pn", "i", 0 - NoBound, NoBound)
     [] addr = "/pf" -> Scalar("pf", "f", 0 - 10, 41) [] addr = "/pg" -> Scalar("pg", "f", 0 - NoBound, 32) [] addr = "/pt" -> Scalar("pt", "T", 0, 0)
     [] addr = "/po" -> Scalar("po", "o", 0 - NoBound, NoBound) [] addr = "/ps" -> Scalar("ps", "s", 0, 7) [] addr = "/preset" -> Scalar("preset", "i", 0, 2)
-    [] addr = "/dep" -> Scalar("dep", "i", 0, 100) [] addr = "/sub_on" -> Scalar("sub_on", "T", 0, 0) [] addr = "/palloc" -> Scalar("palloc", "T", 0, 0)
+    [] addr = "/dep" -> Scalar("dep", "i", 0, 100) [] addr = "/mode" -> Scalar("mode", "i", 0, 2) [] addr = "/dep2" -> Scalar("dep2", "i", 0, 100) [] addr = "/chain" -> Scalar("chain", "i", 0, 100) [] addr = "/tg" -> Scalar("tg", "T", 0, 0) [] addr = "/dep3" -> Scalar("dep3", "i", 0, 100)
+    [] addr = "/sub_on" -> Scalar("sub_on", "T", 0, 0) [] addr = "/palloc" -> Scalar("palloc", "T", 0, 0)
     [] addr = "/ai0" -> Elem("ai", 1, "I", 0, 100) [] addr = "/ai1" -> Elem("ai", 2, "I", 0, 100) [] addr = "/ai2" -> Elem("ai", 3, "I", 0, 100)
     [] addr = "/af0" -> Elem("af", 1, "f", 0 - 2, 3) [] addr = "/af1" -> Elem("af", 2, "f", 0 - 2, 3) [] addr = "/af2" -> Elem("af", 3, "f", 0 - 2, 3)
     [] addr = "/at0" -> Elem("at", 1, "T", 0, 0) [] addr = "/at1" -> Elem("at", 2, "T", 0, 0)
@@ -38,16 +43,22 @@ Param(addr) ==
     [] addr = "/subs0/si" -> InSub("subs", 1, SubDef[1]) [] addr = "/subs0/sf" -> InSub("subs", 1, SubDef[2]) [] addr = "/subs0/st" -> InSub("subs", 1, SubDef[3])
     [] addr = "/subs1/si" -> InSub("subs", 2, SubDef[1]) [] addr = "/subs1/sf" -> InSub("subs", 2, SubDef[2]) [] addr = "/subs1/st" -> InSub("subs", 2, SubDef[3])
     [] addr = "/psub/si" -> InSub("psub", 0, SubDef[1]) [] addr = "/psub/sf" -> InSub("psub", 0, SubDef[2]) [] addr = "/psub/st" -> InSub("psub", 0, SubDef[3])
-Addresses == << "/pc", "/pi", "/pn", "/pf", "/pg", "/pt", "/po", "/ps", "/preset", "/dep", "/ai0", "/ai1", "/ai2", "/af0", "/af1", "/af2", "/at0", "/at1",
+    [] addr = "/sub/sa0" -> SubElem("sub", 0, 1) [] addr = "/sub/sa1" -> SubElem("sub", 0, 2) [] addr = "/subs0/sa0" -> SubElem("subs", 1, 1) [] addr = "/subs0/sa1" -> SubElem("subs", 1, 2)
+    [] addr = "/subs1/sa0" -> SubElem("subs", 2, 1) [] addr = "/subs1/sa1" -> SubElem("subs", 2, 2) [] addr = "/psub/sa0" -> SubElem("psub", 0, 1) [] addr = "/psub/sa1" -> SubElem("psub", 0, 2)
+Addresses == << "/pc", "/pi", "/pn", "/pf", "/pg", "/pt", "/po", "/ps", "/preset", "/dep", "/mode", "/dep2", "/chain", "/tg", "/dep3", "/ai0", "/ai1", "/ai2", "/af0", "/af1", "/af2", "/at0", "/at1",
                 "/sub_on", "/sub/si", "/sub/sf", "/sub/st", "/subs0/si", "/subs0/sf", "/subs0/st", "/subs1/si", "/subs1/sf", "/subs1/st",
-                "/palloc", "/psub/si", "/psub/sf", "/psub/st" >>
+                "/palloc", "/psub/si", "/psub/sf", "/psub/st",
+                "/sub/sa0", "/sub/sa1", "/subs0/sa0", "/subs0/sa1", "/subs1/sa0", "/subs1/sa1", "/psub/sa0", "/psub/sa1" >>
 \* ------------------------------------------------------------------ state access
 Exists(s, p) == p.where # "psub" \/ ~ s.psub.null                 \* the pointer sub-tree exists only while allocated
-GetV(s, p) == CASE p.where = "top" -> s[p.f] [] p.where = "arr" -> s[p.f][p.i] [] p.where = "sub" -> s.sub[p.f]
-                [] p.where = "subs" -> s.subs[p.i][p.f] [] p.where = "psub" -> s.psub[p.f]
+GetV(s, p) == CASE p.where = "top" -> s[p.f] [] p.where = "arr" -> s[p.f][p.i]
+                [] p.where = "sub" -> (IF p.j = 0 THEN s.sub[p.f] ELSE s.sub[p.f][p.j])
+                [] p.where = "subs" -> (IF p.j = 0 THEN s.subs[p.i][p.f] ELSE s.subs[p.i][p.f][p.j])
+                [] p.where = "psub" -> (IF p.j = 0 THEN s.psub[p.f] ELSE s.psub[p.f][p.j])
 PutV(s, p, v) == CASE p.where = "top" -> [s EXCEPT ![p.f] = v] [] p.where = "arr" -> [s EXCEPT ![p.f][p.i] = v]
-                   [] p.where = "sub" -> [s EXCEPT !.sub[p.f] = v] [] p.where = "subs" -> [s EXCEPT !.subs[p.i][p.f] = v]
-                   [] p.where = "psub" -> [s EXCEPT !.psub[p.f] = v]
+                   [] p.where = "sub" -> (IF p.j = 0 THEN [s EXCEPT !.sub[p.f] = v] ELSE [s EXCEPT !.sub[p.f][p.j] = v])
+                   [] p.where = "subs" -> (IF p.j = 0 THEN [s EXCEPT !.subs[p.i][p.f] = v] ELSE [s EXCEPT !.subs[p.i][p.f][p.j] = v])
+                   [] p.where = "psub" -> (IF p.j = 0 THEN [s EXCEPT !.psub[p.f] = v] ELSE [s EXCEPT !.psub[p.f][p.j] = v])
 \* ------------------------------------------------------------------ Set / Get (C14)
 Clamp(v, lo, hi) == IF v < lo THEN lo ELSE IF v > hi THEN hi ELSE v
 Narrow8(v) == ((v + 128) % 256) - 128                              \* conversion to the char-backed storage of rParam / rArrayI
@@ -64,7 +75,9 @@ Admits(p, ty) == CASE p.kind = "c" -> ty = "c" [] p.kind \in {"i", "I"} -> ty = 
                    [] p.kind = "T" -> ty \in {"T", "F"} [] p.kind = "o" -> ty \in {"i", "c", "S"} [] p.kind = "s" -> ty = "s"
 \* side effects the application attaches to two of its ports (rChangeCb)
 After(s, addr, changed) ==
-  IF addr = "/preset" THEN [s EXCEPT !.dep = PresetDefault(s.preset)]                               \* a preset message re-initialises its dependant
+  IF addr = "/preset" THEN [s EXCEPT !.dep = PresetDefault(s.preset), !.mode = 0, !.dep2 = PresetDefault2(s.preset), !.chain = 0, !.dep3 = PresetDefault3(s.preset)]   \* a preset message re-initialises its dependants and the mode
+  ELSE IF addr = "/tg" THEN [s EXCEPT !.dep3 = PresetDefault3(s.preset)]
+  ELSE IF addr = "/mode" THEN [s EXCEPT !.dep2 = PresetDefault2(s.preset), !.chain = 0]                                               \* a mode message re-initialises ITS dependants
   ELSE IF addr = "/palloc" /\ changed THEN [s EXCEPT !.psub = IF s.palloc THEN SubDefault ELSE NullSub]
   ELSE s
 SetState(s, addr, ty, v) == LET p == Param(addr) IN
@@ -76,19 +89,25 @@ EvType(p) == CASE p.kind = "c" -> "c" [] p.kind \in {"i", "I", "o"} -> "i" [] p.
 \* reachable: not below a disabled or null sub-tree
 Reachable(s, p) == CASE p.where = "sub" -> s.sub_on [] p.where = "psub" -> s.palloc /\ ~ s.psub.null [] OTHER -> TRUE
 DefaultOf(s, addr) == LET p == Param(addr) IN
-  IF addr = "/dep" THEN PresetDefault(s.preset) ELSE GetV(IF p.where = "psub" THEN [Default EXCEPT !.psub = SubDefault] ELSE Default, p)
+  IF addr = "/dep" THEN PresetDefault(s.preset) ELSE IF addr = "/dep2" THEN PresetDefault2(s.preset) ELSE IF addr = "/dep3" THEN PresetDefault3(s.preset) ELSE GetV(IF p.where = "psub" THEN [Default EXCEPT !.psub = SubDefault] ELSE Default, p)
 \* value as it appears in a savefile line: options by name, everything else as stored
 FileVal(p, v) == IF p.kind = "o" THEN [sym |-> OptionNames[v + 1]] ELSE v
-ScalarAddrs == SelectSeq(Addresses, LAMBDA a : Param(a).where # "arr")
+ScalarAddrs == SelectSeq(Addresses, LAMBDA a : Param(a).where # "arr" /\ Param(a).j = 0)
 ScalarLines(s) == { [addr |-> a, vals |-> <<FileVal(Param(a), GetV(s, Param(a)))>>] :
                       a \in { ScalarAddrs[i] : i \in { j \in 1..Len(ScalarAddrs) : Reachable(s, Param(ScalarAddrs[j])) /\ GetV(s, Param(ScalarAddrs[j])) # DefaultOf(s, ScalarAddrs[j]) } } }
 \* an array is one line with its elements up to the last one that differs from the default
 LastDiff(cur, def) == IF \E i \in 1..Len(cur) : cur[i] # def[i] THEN CHOOSE i \in 1..Len(cur) : cur[i] # def[i] /\ \A j \in (i + 1)..Len(cur) : cur[j] = def[j] ELSE 0
 ArrayLines(s) == { [addr |-> "/" \o f, vals |-> << SubSeq(s[f], 1, LastDiff(s[f], Default[f])) >>] : f \in { g \in {"ai", "af", "at"} : LastDiff(s[g], Default[g]) > 0 } }
-SaveLines(s) == ScalarLines(s) \cup ArrayLines(s)
+\* the arrays inside the sub-trees that can be reached
+SubOf(s, c) == CASE c = "/sub" -> s.sub [] c = "/subs0" -> s.subs[1] [] c = "/subs1" -> s.subs[2] [] OTHER -> s.psub
+SubReachable(s, c) == CASE c = "/sub" -> s.sub_on [] c = "/psub" -> s.palloc /\ ~ s.psub.null [] OTHER -> TRUE
+SubArrayLines(s) == { [addr |-> c \o "/sa", vals |-> << SubSeq(SubOf(s, c).sa, 1, LastDiff(SubOf(s, c).sa, SubDefault.sa)) >>] :
+                        c \in { d \in {"/sub", "/subs0", "/subs1", "/psub"} : SubReachable(s, d) /\ LastDiff(SubOf(s, d).sa, SubDefault.sa) > 0 } }
+SaveLines(s) == ScalarLines(s) \cup ArrayLines(s) \cup SubArrayLines(s)
+ArrayLineAddrs == {"/ai", "/af", "/at", "/sub/sa", "/subs0/sa", "/subs1/sa", "/psub/sa"}
 \* ------------------------------------------------------------------ loading (C12, C13)
 \* the messages a line stands for (an array line is one message per element)
-LineMsgs(ln) == IF ln.addr \in {"/ai", "/af", "/at"}
+LineMsgs(ln) == IF ln.addr \in ArrayLineAddrs
                 THEN [i \in 1..Len(ln.vals[1]) |-> [addr |-> ln.addr \o (CASE i = 1 -> "0" [] i = 2 -> "1" [] OTHER -> "2"), v |-> ln.vals[1][i]]]
                 ELSE << [addr |-> ln.addr, v |-> ln.vals[1]] >>
 MsgTy(p, v) == CASE p.kind = "T" -> IF v THEN "T" ELSE "F" [] p.kind = "o" -> "S" [] p.kind = "I" -> "i" [] OTHER -> p.kind
@@ -96,13 +115,18 @@ ApplyMsg(s, m) == LET p == Param(m.addr) IN SetState(s, m.addr, MsgTy(p, m.v), I
 RECURSIVE ApplyAll(_, _)
 ApplyAll(s, ms) == IF ms = <<>> THEN s ELSE ApplyAll(ApplyMsg(s, Head(ms)), Tail(ms))
 \* a port that another port's default, enablement or declared dependency refers to comes first
-Rank(addr) == IF addr \in {"/preset", "/sub_on", "/palloc"} THEN 0 ELSE 1
+Rank(addr) == IF addr \in {"/preset", "/sub_on", "/palloc", "/tg"} THEN 0 ELSE IF addr = "/mode" THEN 1 ELSE 2
 RECURSIVE Concat(_)
 Concat(ss) == IF ss = <<>> THEN <<>> ELSE Head(ss) \o Concat(Tail(ss))
 RECURSIVE SetToSeq(_)
 SetToSeq(S) == IF S = {} THEN <<>> ELSE LET e == CHOOSE e \in S : TRUE IN <<e>> \o SetToSeq(S \ {e})
-LoadLines(lines) == LET first == SetToSeq({ ln \in lines : Rank(ln.addr) = 0 })  rest == SetToSeq({ ln \in lines : Rank(ln.addr) = 1 }) IN
-  ApplyAll(Default, Concat([i \in 1..Len(first) |-> LineMsgs(first[i])]) \o Concat([i \in 1..Len(rest) |-> LineMsgs(rest[i])]))
+RECURSIVE RevSeq(_)
+RevSeq(q) == IF q = <<>> THEN <<>> ELSE RevSeq(Tail(q)) \o <<Head(q)>>
+Group(lines, r, rev) == LET g == SetToSeq({ ln \in lines : Rank(ln.addr) = r }) IN IF rev THEN RevSeq(g) ELSE g
+MsgsOf(g) == Concat([i \in 1..Len(g) |-> LineMsgs(g[i])])
+\* ranks: the order of the groups (<<0, 1, 2>> is the dependency order); rev: each group reversed
+LoadWith(lines, ranks, rev) == ApplyAll(Default, Concat([k \in 1..Len(ranks) |-> MsgsOf(Group(lines, ranks[k], rev))]))
+LoadLines(lines) == LoadWith(lines, <<0, 1, 2>>, FALSE)
 \* what a saved state looks like after loading its savefile into a fresh instance: the reachable part is the state, the rest is default
 Restored(s) == [s EXCEPT !.sub = IF s.sub_on THEN s.sub ELSE SubDefault]
 =============================================================================
